@@ -321,6 +321,10 @@ func VerticalZoom(inputZoom int64, vIndex int64, outputZoom int64) []string {
 		// 垂直精度が下がった場合
 		// 変換後の v 成分の最小値を定義
 		minVparam = vIndex / vVoxelNum
+		if vIndex%vVoxelNum < 0 {
+			// 負のインデックスは0方向ではなく下方向(床関数)に丸める
+			minVparam--
+		}
 
 		// 変換後の z 成分の最大値を定義
 		maxVparam = minVparam
